@@ -708,8 +708,47 @@ def r01_5(ctx, counts: dict[str, int]) -> RuleResult:
                                  f'also through a chain of predicates) are then not the ones the '
                                  f'item is selected by; ancestor::*[@k][1] picks the farthest '
                                  f'ancestor'))
+    # (c) the focus loop of the filter is left early only for a literal predicate
+    from ..engine.cfg import CFG as _CFG5
+    from ..engine.dataflow import branch_facts as _bf5
+    n_x = 0
+    for g in sorted(done, key=lambda q: q.key):
+        me = g.params()[0]
+        loops5 = [lp for lp in walk_local(g.node) if isinstance(lp, ast.For)
+                  and isinstance(lp.iter, ast.Call) and isinstance(lp.iter.func, ast.Attribute)
+                  and lp.iter.func.attr == 'select_with_focus'
+                  and stmt_text(lp.iter.func.value) == f'{me}[0]']
+        if not loops5:
+            continue
+        cfg5 = _CFG5(g.node)
+        facts5 = _bf5(cfg5)
+        for lp in loops5:
+            exits = [x for b_ in lp.body for x in ast.walk(b_)
+                     if isinstance(x, (ast.Return, ast.Break))]
+            n_x += 1
+            bad5 = []
+            for x in exits:
+                nd5 = [q for q in cfg5.nodes if q.ast is x]
+                fs5 = facts5[nd5[0].id] if nd5 else set()
+                literal = any(fa.startswith('+') and f'{me}[1].symbol' in fa and "'(" in fa
+                              for fa in fs5)
+                if not literal:
+                    bad5.append((x, sorted(fs5)[:2]))
+            res.instances.append(f'{g.key}: focus loop at L{lp.lineno}: early exits {len(exits)}, '
+                                 f'not under a literal-predicate test: {len(bad5)}')
+            if not bad5:
+                res.ok()
+            for x, fs5 in bad5:
+                res.fail(finding('R01.5', g, x, 'focus loop left early',
+                                 f'`{stmt_text(x)[:30]}` leaves the loop over the items of the '
+                                 f'filtered sequence before the last item, under {fs5}, which is '
+                                 f'not a test that the predicate is a numeric literal: a predicate '
+                                 f'whose value can differ between items (number(), '
+                                 f'string-length() read the context item implicitly) then filters '
+                                 f'only up to its first match: (1,2,3)[number()] is (1)'))
     counts['predicate_tokens'] = n
     counts['predicate_yields'] = n_y
+    counts['predicate_focus_loops'] = n_x
     if n_y < 1:
         raise AnalysisError(f'select of "[": {n_y} yields located')
     return res
